@@ -469,7 +469,19 @@ fn gen_plan(id: &str, seed: u64, _run: u64, tier: Tier) -> PlanA {
                     }
                 }
             }
-            p.skew = Some(Skew { what: what.to_string(), who, value: Hx(value), ids });
+            let mut id_offset = 0u64;
+            let mut object_level = false;
+            if what == "id" {
+                object_level = rng.chance(1, 3);
+                if rng.chance(1, 4) {
+                    // identifiers that agree with the true ones in the low byte only
+                    id_offset = *rng.pick(&[256u64, 512, 65_536, 1 << 32]);
+                    if rng.chance(1, 2) {
+                        ids = (0..n).collect();
+                    }
+                }
+            }
+            p.skew = Some(Skew { what: what.to_string(), who, value: Hx(value), ids, id_offset, object_level });
             p
         }
         _ => unreachable!(),
